@@ -13,6 +13,7 @@ from .. import tables
 from ..tables import Atom
 from ..consteval import fold_expr, Regex
 from .. import rx
+from . import c13_norm
 
 ARGLIST = 'mesonbuild/arglist.py'
 CLIKE = 'mesonbuild/compilers/mixins/clike.py'
@@ -31,7 +32,7 @@ TABLE_ROLE = {
 # How a table may be consulted, by its role in the class (a table of prefixes is a startswith/`in` table ...).
 TABLE_KIND = {
     'dedup2_prefixes': ('prefix', 'eq'), 'dedup1_prefixes': ('prefix', 'eq'), 'dedup2_suffixes': ('suffix',), 'dedup1_suffixes': ('suffix',),
-    'dedup2_args': ('eq',), 'dedup1_args': ('eq',), 'dedup1_regex': ('regex',),
+    'dedup2_args': ('eq',), 'dedup1_args': ('eq',), 'dedup1_regex': ('regex', 'regex-match', 'regex-full'),
 }
 
 # Reference content of the C-like tables.  Provenance: statement of property C13 ("every batch of -I/-L arguments goes in
@@ -51,7 +52,7 @@ REF_TABLES: T.Dict[str, T.Tuple[str, T.FrozenSet[str]]] = {
 
 # Language facts about the versioned-shared-library regex (comment above it in arglist.py: "Match a .so of the form
 # path/to/libfoo.so.0.1.0"): membership of words / emptiness of intersections, decided on the sa.rx NFA.
-RX_MEMBERS = ['libfoo.so', 'libfoo.so.0', 'libfoo.so.0.1', 'libfoo.so.0.1.0', '/libfoo.so.12.3.45', '\\libz.so.1']
+RX_MEMBERS = ['libfoo.so', 'libfoo.so.0', 'libfoo.so.0.1', 'libfoo.so.0.1.0', '/libfoo.so.12.3.45', '\\libz.so.1', 'path/to/libfoo.so.0.1.0', '/usr/lib/libz.so.1']
 RX_DISJOINT = {
     r'lib[a-z]+\.so(\.[0-9]+)(\.[0-9]+)(\.[0-9]+)(\.[0-9]+)': 'more than three version components',
     r'[a-km-z]+\.so(\.[0-9]+)?': 'a file name without the lib prefix',
@@ -83,12 +84,13 @@ def _arg_test(a: Atom, arg: str = 'ARG1') -> T.Optional[ArgTest]:
             if e.func.attr in ('startswith', 'endswith') and norm(e.func.value) == arg and len(e.args) == 1:
                 t = _table_of(e.args[0])
                 return ArgTest('prefix' if e.func.attr == 'startswith' else 'suffix', t) if t else None
-            if e.func.attr in ('search',) and norm(e.func.value) == 're' and len(e.args) == 2 and norm(e.args[1]) == arg:
+            how = {'search': 'regex', 'match': 'regex-match', 'fullmatch': 'regex-full'}.get(e.func.attr)
+            if how and norm(e.func.value) == 're' and len(e.args) == 2 and norm(e.args[1]) == arg:
                 t = _table_of(e.args[0])
-                return ArgTest('regex', t) if t else None
-            if e.func.attr == 'search' and len(e.args) == 1 and norm(e.args[0]) == arg:
+                return ArgTest(how, t) if t else None
+            if how and len(e.args) == 1 and norm(e.args[0]) == arg:
                 t = _table_of(e.func.value)
-                return ArgTest('regex', t) if t else None
+                return ArgTest(how, t) if t else None
     return None
 
 
@@ -182,14 +184,14 @@ def r2(ctx: RuleCtx) -> None:
     # (a) order of the classification chain, on every world of its atoms
     mod, cdef, fn = _resolve(ctx, CLIKE, 'CLikeCompilerArgs', '_can_dedup')
     qn = f'{cdef.name}._can_dedup'
-    tab = tables.extract(fn, name=qn, pure={'search'}, outcome=_path_outcome)
+    tab = tables.extract(fn, name=qn, pure={'search', 'match', 'fullmatch'}, outcome=_path_outcome)
     tests: T.Dict[Atom, ArgTest] = {}
     for a in tab.atoms():
         t = _arg_test(a)
         if t is None or t.table not in TABLE_ROLE:
             raise Undecided(f'{qn}: atom outside the reference vocabulary: {a!r}')
         tests[a] = t
-    ctx.floor('_can_dedup: tests on class tables', len(tests), 9)
+    ctx.floor('_can_dedup: tests on class tables', len(tests), 4)
     prefix_tables = {t.table for t in tests.values() if t.kind == 'prefix'}
     n = 0
     bad: T.Dict[str, T.Tuple[tables.Row, str, str, str]] = {}
@@ -319,8 +321,10 @@ def r2(ctx: RuleCtx) -> None:
         raise Undecided('dedup1_regex does not fold to a regular expression')
     amod = ctx.repo.module(ARGLIST)
     # the regex is applied with re.search: it must carry its own anchors (sa.rx decides languages of full matches)
-    if not any(t.kind == 'regex' and t.table == 'dedup1_regex' for t in tests.values()):
-        raise Undecided(f'{qn}: dedup1_regex is not consulted with re.search')
+    hows = sorted({t.kind for t in tests.values() if t.table == 'dedup1_regex'})
+    if len(hows) != 1:
+        raise Undecided(f'{qn}: dedup1_regex is consulted in {len(hows)} different ways')
+    how = hows[0]      # regex (search) | regex-match (tried at the start only) | regex-full
     tail3, head3 = _anchors(rxv.pattern, rxv.flags)
     if 'unknown' in (tail3, head3):
         raise Undecided(f'dedup1_regex {rxv.pattern!r}: anchors are not in a recognised position (end: {tail3}, start: {head3})')
@@ -329,9 +333,13 @@ def r2(ctx: RuleCtx) -> None:
                 f'dedup1_regex {rxv.pattern!r} is searched without an end anchor: any argument merely containing lib*.so is treated as once-only', amod.cls(ROOT))
     ctx.require(head_ok, 'dedup1_regex starts at the beginning of the argument or after a path separator', amod, ROOT, 'dedup1_regex start anchor',
                 f'dedup1_regex {rxv.pattern!r} can start in the middle of a file name (no \\A / path separator alternative in front)', amod.cls(ROOT))
+    # language recognised by the *use* of the regex: search may start anywhere (the pattern's own start anchor, checked above,
+    # restricts where), match/fullmatch start at the first character of the argument
+    used = ('(?s:.*)(?:' + rxv.pattern + ')') if how == 'regex' else rxv.pattern
     for word in RX_MEMBERS:
-        ctx.require(rx.full_matches(rxv.pattern, word, rxv.flags), f'dedup1_regex accepts {word!r}', amod, ROOT, f'dedup1_regex accepts {word}',
-                    f'the language of dedup1_regex {rxv.pattern!r} does not contain {word!r} (a versioned shared library must be once-only)', amod.cls(ROOT))
+        ctx.require(rx.full_matches(used, word, rxv.flags), f'dedup1_regex as used ({how}) accepts {word!r}', amod, ROOT, f'dedup1_regex accepts {word}',
+                    f'dedup1_regex {rxv.pattern!r}, applied with {"re.search" if how == "regex" else "match at the start of the argument"}, does not recognise {word!r} '
+                    '(a versioned shared library, also when given with its directory, must be once-only)', amod.cls(ROOT))
     for other, why in RX_DISJOINT.items():
         wit = rx.intersects(rxv.pattern, other, rxv.flags, 0)
         ctx.require(wit is None, f'dedup1_regex rejects {why}', amod, ROOT, f'dedup1_regex rejects: {why}',
@@ -345,94 +353,11 @@ DEDUP_KINDS = ('Dedup.NO_DEDUP', 'Dedup.UNIQUE', 'Dedup.OVERRIDDEN')
 MUT = {'append', 'appendleft', 'extend', 'extendleft', 'insert', 'add', 'update'}
 
 
-KEEP_CALLS = {'_can_dedup', '_should_prepend', 'flush_pre_post'}     # vocabulary of the reference, never inlined
+KEEP_CALLS = c13_norm.KEEP_CALLS     # vocabulary of the reference, never inlined
 
 
 def _inline(mod: Module, cls: str, fn: T.Any, depth: int = 2) -> T.Any:
-    """Copy of `fn` with calls `self.helper(...)` of private helpers of the same class folded in:
-    * a helper whose body is a single `return <expr>` is substituted as an expression,
-    * a statement `self.helper(...)` whose helper never returns a value is replaced by the helper's statements
-      (parameters substituted; helpers whose locals clash with the caller's are left alone).
-    Extracting a block into a private method and calling it on `self` does not change what the method does."""
-    import copy
-    meths = mod.methods(cls)
-
-    def body_of(h: T.Any) -> T.List[ast.stmt]:
-        b = list(h.body)
-        if b and isinstance(b[0], ast.Expr) and isinstance(b[0].value, ast.Constant) and isinstance(b[0].value.value, str):
-            b = b[1:]
-        return b
-
-    def helper(call: ast.AST) -> T.Optional[T.Any]:
-        if isinstance(call, ast.Call) and isinstance(call.func, ast.Attribute) and attr_chain(call.func.value) == 'self' and not call.keywords:
-            n = call.func.attr
-            if n.startswith('_') and not n.endswith('__') and n not in KEEP_CALLS and n in meths and n != fn.name:
-                h = meths[n]
-                ps = [a.arg for a in h.args.args]
-                if ps[:1] == ['self'] and len(ps) - 1 == len(call.args) and not h.args.vararg and not h.args.kwarg and not h.args.kwonlyargs \
-                        and not any(isinstance(a, ast.Starred) for a in call.args) and not h.decorator_list:
-                    return h
-        return None
-
-    def subst(node: ast.AST, h: T.Any, call: ast.Call) -> ast.AST:
-        mapping = {a.arg: v for a, v in zip(h.args.args[1:], call.args)}
-
-        class S(ast.NodeTransformer):
-            def visit_Name(self, n: ast.Name) -> ast.AST:
-                if n.id in mapping and isinstance(n.ctx, ast.Load):
-                    return ast.copy_location(copy.deepcopy(mapping[n.id]), n)
-                return n
-        assigned = {n.id for n in ast.walk(node) if isinstance(n, ast.Name) and isinstance(n.ctx, ast.Store)}
-        if assigned & set(mapping):
-            raise Undecided(f'{cls}.{h.name} rebinds a parameter; not inlined')
-        return S().visit(copy.deepcopy(node))
-
-    cur = copy.deepcopy(fn)
-    for _ in range(depth):
-        changed = False
-        caller_locals = {n.id for n in ast.walk(cur) if isinstance(n, ast.Name) and isinstance(n.ctx, ast.Store)}
-
-        class E(ast.NodeTransformer):
-            def visit_Call(self, c: ast.Call) -> ast.AST:
-                nonlocal changed
-                self.generic_visit(c)
-                h = helper(c)
-                if h is not None:
-                    b = body_of(h)
-                    if len(b) == 1 and isinstance(b[0], ast.Return) and b[0].value is not None:
-                        changed = True
-                        return ast.copy_location(subst(b[0].value, h, c), c)
-                return c
-
-        def splice(stmts: T.List[ast.stmt]) -> T.List[ast.stmt]:
-            nonlocal changed
-            out: T.List[ast.stmt] = []
-            for st in stmts:
-                for field in ('body', 'orelse', 'finalbody'):
-                    sub = getattr(st, field, None)
-                    if isinstance(sub, list) and sub and isinstance(sub[0], ast.stmt):
-                        setattr(st, field, splice(sub))
-                for hd in getattr(st, 'handlers', []) or []:
-                    hd.body = splice(hd.body)
-                h = helper(st.value) if isinstance(st, ast.Expr) else None
-                if h is not None:
-                    b = body_of(h)
-                    if b and isinstance(b[-1], ast.Return) and b[-1].value is None:
-                        b = b[:-1]
-                    rets = [n for x in b for n in ast.walk(x) if isinstance(n, (ast.Return, ast.Yield, ast.YieldFrom))]
-                    locs = {n.id for x in b for n in ast.walk(x) if isinstance(n, ast.Name) and isinstance(n.ctx, ast.Store)}
-                    if not rets and not (locs & caller_locals) and b:
-                        out.extend(subst(x, h, st.value) for x in b)  # type: ignore[arg-type,misc]
-                        changed = True
-                        continue
-                out.append(st)
-            return out
-        cur = E().visit(cur)
-        cur.body = splice(cur.body)
-        ast.fix_missing_locations(cur)
-        if not changed:
-            break
-    return cur
+    return c13_norm.normalise(mod, cls, fn)
 
 
 def _eff(st: ast.AST) -> T.Optional[str]:
@@ -645,6 +570,215 @@ def _loop_facts(ctx: RuleCtx, mod: Module, qn: str, fn: T.Any, loop: ast.For) ->
     return LoopFacts(store, direction, out, end, frozenset(sets.values()), next(iter(adds)) if adds else None)
 
 
+class Seg(T.NamedTuple):
+    store: str                       # pre | post | _container
+    order: str                       # 'store' (elements in the order of the store) | 'reversed'
+    winner: T.Optional[str]          # which of several identical OVERRIDDEN entries survives: first | last | None (no de-duplication)
+    tested: T.FrozenSet[int]         # override sets consulted (object ids)
+    fills: T.Optional[int]           # override set filled
+    node: ast.AST
+
+
+class ListVal:
+    def __init__(self, segs: T.Optional[T.List[Seg]] = None) -> None:
+        self.segs: T.List[Seg] = list(segs or [])
+
+
+class SetVal:
+    def __init__(self, name: str) -> None:
+        self.name = name
+
+
+EMPTY_LISTS = ('[]', 'list()', 'collections.deque()', 'deque()')
+STORE_CHAINS = ('self.pre', 'self.post', 'self._container')
+
+
+def _slow_path(ctx: RuleCtx, mod: Module, qn: str, fn: T.Any, slow: T.List[ast.stmt]) -> bool:
+    """Symbolic reading of the slow path: every local list is a sequence of *segments* (which store it came from, in which
+    order, which duplicate wins, which override sets were consulted); the statements only move segments around.  The value
+    finally stored in self._container is compared with  [pre: first wins] + [container minus both sets] + [post: last wins]."""
+    env: T.Dict[str, T.Any] = {}
+    final: T.Optional[T.List[Seg]] = None
+    n_walks = 0
+
+    def flip(segs: T.List[Seg]) -> T.List[Seg]:
+        return [x._replace(order='store' if x.order == 'reversed' else 'reversed') for x in reversed(segs)]
+
+    def comp_seg(e: T.Any) -> T.List[Seg]:
+        if len(e.generators) != 1 or e.generators[0].is_async or not isinstance(e.generators[0].target, ast.Name) or norm(e.elt) != e.generators[0].target.id:
+            raise Undecided(f'{qn}: comprehension `{short(e, 60)}` is not a plain filter of one store')
+        g = e.generators[0]
+        x = g.target.id
+        fake = ast.For(target=g.target, iter=g.iter, body=[], orelse=[])
+        store, direction = _source(fake)
+        tested: T.Set[int] = set()
+        for cond in g.ifs:
+            parts = cond.values if isinstance(cond, ast.BoolOp) and isinstance(cond.op, ast.And) else [cond]
+            for part in parts:
+                at, pol = tables.canon(part, True)
+                if at.kind == 'in' and at.args[0] == x and not pol and isinstance(env.get(at.args[1]), SetVal):
+                    tested.add(id(env[at.args[1]]))
+                else:
+                    raise Undecided(f'{qn}: filter `{short(part, 60)}` of a comprehension is outside the reference vocabulary')
+        return [Seg(store, 'store' if direction == 'forward' else 'reversed', None, frozenset(tested), None, e)]
+
+    def seq_of(e: ast.AST) -> T.List[Seg]:
+        if isinstance(e, ast.Name):
+            v = env.get(e.id)
+            if isinstance(v, ListVal):
+                return list(v.segs)
+            raise Undecided(f'{qn}: `{e.id}` is not a list built by the walks')
+        if isinstance(e, (ast.ListComp, ast.GeneratorExp)):
+            return comp_seg(e)
+        if isinstance(e, ast.Call) and not e.keywords:
+            f = norm(e.func)
+            if f == 'reversed' and len(e.args) == 1:
+                return flip(seq_of(e.args[0]))
+            if f in ('list', 'tuple', 'iter', 'collections.deque', 'deque') and len(e.args) == 1:
+                return seq_of(e.args[0])
+            if f in EMPTY_LISTS or (f in ('list', 'collections.deque', 'deque') and not e.args):
+                return []
+            if isinstance(e.func, ast.Attribute) and e.func.attr == 'copy' and not e.args:
+                return seq_of(e.func.value)
+        if isinstance(e, (ast.List, ast.Tuple)):
+            out: T.List[Seg] = []
+            for x in e.elts:
+                if not isinstance(x, ast.Starred):
+                    raise Undecided(f'{qn}: literal element in `{short(e, 60)}`')
+                out += seq_of(x.value)
+            return out
+        if isinstance(e, ast.BinOp) and isinstance(e.op, ast.Add):
+            return seq_of(e.left) + seq_of(e.right)
+        if isinstance(e, ast.Subscript) and norm(e.slice) == ':':
+            return seq_of(e.value)
+        if isinstance(e, ast.Subscript) and norm(e.slice) == '::-1':
+            return flip(seq_of(e.value))
+        raise Undecided(f'{qn}: `{short(e, 60)}` is not a known way of combining the kept lists')
+
+    def bind(t: ast.AST, v: ast.AST) -> None:
+        nonlocal final
+        if isinstance(t, (ast.Tuple, ast.List)) and isinstance(v, (ast.Tuple, ast.List)) and len(t.elts) == len(v.elts):
+            vals = [value_of(x) for x in v.elts]
+            for tt, vv in zip(t.elts, vals):
+                store_to(tt, vv)
+            return
+        store_to(t, value_of(v))
+
+    def value_of(v: ast.AST) -> T.Any:
+        if isinstance(v, ast.Name) and isinstance(env.get(v.id), (ListVal, SetVal)):
+            return env[v.id]              # alias: the same object
+        if isinstance(v, ast.Call) and norm(v) in ('set()', 'frozenset()'):
+            return SetVal('?')
+        if isinstance(v, ast.Set) and not v.elts:
+            return SetVal('?')
+        return ListVal(seq_of(v))
+
+    def store_to(t: ast.AST, val: T.Any) -> None:
+        nonlocal final
+        if isinstance(t, ast.Name):
+            if isinstance(val, SetVal) and val.name == '?':
+                val.name = t.id
+            env[t.id] = val
+        elif attr_chain(t) == 'self._container' or (isinstance(t, ast.Subscript) and attr_chain(t.value) == 'self._container' and norm(t.slice) == ':'):
+            if not isinstance(val, ListVal):
+                raise Undecided(f'{qn}: _container is assigned something that is not a list')
+            final = list(val.segs)
+        elif attr_chain(t) == 'self.needs_override_check':
+            pass
+        else:
+            raise Undecided(f'{qn}: slow path assigns `{short(t)}`')
+
+    for st in slow:
+        if isinstance(st, ast.Expr) and isinstance(st.value, ast.Constant):
+            continue
+        if isinstance(st, ast.Pass):
+            continue
+        if isinstance(st, ast.Assign) and attr_chain(st.targets[0]) == 'self.needs_override_check':
+            continue
+        if isinstance(st, ast.Assign) and len(st.targets) == 1:
+            bind(st.targets[0], st.value)
+            continue
+        if isinstance(st, ast.AnnAssign) and st.value is not None:
+            bind(st.target, st.value)
+            continue
+        if isinstance(st, ast.For):
+            f = _loop_facts(ctx, mod, qn, fn, st)
+            if f is None:
+                return False
+            n_walks += 1
+            out = env.get(f.out or '')
+            if not isinstance(out, ListVal):
+                raise Undecided(f'{qn}: the {f.store} walk collects into `{f.out}`, which is not a list initialised in this function')
+            sets = []
+            for nm in sorted(f.tested) + ([f.added] if f.added else []):
+                if not isinstance(env.get(nm), SetVal):
+                    raise Undecided(f'{qn}: the {f.store} walk uses `{nm}`, which is not a set initialised in this function')
+                sets.append(env[nm])
+            fwd = f.direction == 'forward'
+            seg = Seg(f.store, 'store' if fwd == (f.end == 'back') else 'reversed', ('first' if fwd else 'last') if f.added else None,
+                      frozenset(id(env[nm]) for nm in f.tested), id(env[f.added]) if f.added else None, st)
+            if f.end == 'back':
+                out.segs.append(seg)
+            else:
+                out.segs.insert(0, seg)
+            continue
+        if isinstance(st, ast.AugAssign) and isinstance(st.op, ast.Add) and isinstance(st.target, ast.Name) and isinstance(env.get(st.target.id), ListVal):
+            env[st.target.id].segs += seq_of(st.value)
+            continue
+        if isinstance(st, ast.AugAssign) and isinstance(st.op, ast.Add) and attr_chain(st.target) == 'self._container':
+            raise Undecided(f'{qn}: slow path extends _container in place')
+        if isinstance(st, ast.Expr) and isinstance(st.value, ast.Call) and isinstance(st.value.func, ast.Attribute):
+            c = st.value
+            recv = attr_chain(c.func.value)
+            m = c.func.attr
+            if recv in ('self.pre', 'self.post') and m == 'clear':
+                continue
+            if recv is not None and isinstance(env.get(recv), ListVal) and len(c.args) == 1 and not c.keywords:
+                if m == 'extend':
+                    env[recv].segs += seq_of(c.args[0])
+                    continue
+                if m == 'extendleft':
+                    env[recv].segs[0:0] = flip(seq_of(c.args[0]))
+                    continue
+        if isinstance(st, ast.Delete) and all(isinstance(t, ast.Subscript) and attr_chain(t.value) in ('self.pre', 'self.post') for t in st.targets):
+            continue
+        raise Undecided(f'{qn}: slow path statement `{short(st, 60)}` is outside the reference vocabulary')
+
+    ctx.floor('walks in the slow path', n_walks, 1)
+    if final is None:
+        raise Undecided(f'{qn}: the slow path never assigns self._container')
+    by_store: T.Dict[str, T.List[Seg]] = {}
+    for sg in final:
+        by_store.setdefault(sg.store, []).append(sg)
+    for store in ('pre', '_container', 'post'):
+        if store not in by_store:
+            ctx.violation(mod, qn, f'self.{store} in the merged list', f'the value stored in self._container is built from {[x.store for x in final] or "nothing"}: '
+                          f'the entries of self.{store} never reach it (everything queued there is lost)', fn)
+            return False
+        if len(by_store[store]) > 1:
+            ctx.violation(mod, qn, f'self.{store} in the merged list', f'self.{store} is merged {len(by_store[store])} times into the new _container', fn)
+            return False
+    pre, cont, post = by_store['pre'][0], by_store['_container'][0], by_store['post'][0]
+    order = [x.store for x in final]
+    ctx.require(order == ['pre', '_container', 'post'], f'{qn}: result is [pre kept] + [container kept] + [post kept]', mod, qn, 'assembly order',
+                f'assembly order is wrong: the merged list is {" + ".join(order)}; it must be pre + surviving container entries + post', fn)
+    ctx.require(pre.winner == 'first' and pre.order == 'store', f'{qn}: pre keeps the first of identical overridden entries, in order', mod, qn, 'polarity of the pre walk',
+                f'pre: {"the " + str(pre.winner) + " occurrence wins" if pre.winner else "duplicates are never removed"}, elements come out in '
+                f'{"the order queued" if pre.order == "store" else "reverse order"}; the front-most -I/-L must survive and the batch order must be kept', pre.node)
+    ctx.require(post.winner == 'last' and post.order == 'store', f'{qn}: post keeps the last of identical overridden entries, in order', mod, qn, 'polarity of the post walk',
+                f'post: {"the " + str(post.winner) + " occurrence wins" if post.winner else "duplicates are never removed"}, elements come out in '
+                f'{"the order added" if post.order == "store" else "reverse order"}; the last -D/-U/-isystem must survive and appended arguments keep their order', post.node)
+    ctx.require(cont.order == 'store' and cont.winner is None, f'{qn}: the flushed part keeps its order', mod, qn, 'polarity of the container walk',
+                'the already flushed arguments come out reversed or de-duplicated among themselves', cont.node)
+    both = frozenset(x for x in (pre.fills, post.fills) if x is not None)
+    ctx.require(cont.tested == both and len(both) == 2, f'{qn}: container entries named in either override set are dropped', mod, qn,
+                'override sets consulted by the container walk', 'the container walk does not consult exactly the two override sets filled by the pre and post walks: '
+                'an overridden argument already flushed would survive next to its replacement', cont.node)
+    ctx.require(pre.tested == frozenset([pre.fills]) and post.tested == frozenset([post.fills]), f'{qn}: each queue de-duplicates against its own set',
+                mod, qn, 'override sets consulted by the queue walks', 'a queue walk consults an override set other than the one it fills', pre.node)
+    return True
+
+
 def r3(ctx: RuleCtx) -> None:
     mod = ctx.repo.module(ARGLIST)
     fn = _inline(mod, ROOT, mod.func(f'{ROOT}.flush_pre_post'))
@@ -695,96 +829,8 @@ def r3(ctx: RuleCtx) -> None:
         ctx.require(not lost[q], f'{qn}: fast path: a non-empty self.{q} is merged at the {"front" if q == "pre" else "back"} of _container ({nw} worlds)',
                     mod, qn, f'fast path self.{q}', f'fast path clears a non-empty self.{q} without merging it into _container: the entries are lost', ifst)
 
-    # slow path
-    loops = [s for s in slow if isinstance(s, ast.For)]
-    for s in slow:
-        if isinstance(s, (ast.If, ast.While, ast.Try, ast.With)):
-            raise Undecided(f'{qn}: slow path contains `{short(s, 50)}`')
-    facts: T.Dict[str, LoopFacts] = {}
-    pos: T.Dict[str, int] = {}
-    for lp in loops:
-        f = _loop_facts(ctx, mod, qn, fn, lp)
-        if f is None:
-            return
-        if f.store in facts:
-            raise Undecided(f'{qn}: two walks over self.{f.store}')
-        facts[f.store] = f
-        pos[f.store] = slow.index(lp)
-    ctx.floor('walks in the slow path', len(facts), 3)
-    if set(facts) != {'pre', 'post', '_container'}:
-        raise Undecided(f'{qn}: walks over {sorted(facts)}')
-    pre, post, cont = facts['pre'], facts['post'], facts['_container']
-    # polarity: pre keeps the FIRST occurrence and its order, post keeps the LAST occurrence and its order
-    ctx.require((pre.direction, pre.end) in (('forward', 'back'),), f'{qn}: pre is walked forward and kept in order (first occurrence wins)', mod, qn,
-                'polarity of the pre walk', f'pre is walked {pre.direction} and kept elements are put at the {pre.end} of {pre.out}: '
-                f'{"the last instead of the first occurrence of an overridden -I/-L survives" if pre.direction == "backward" else "the batch order is reversed"}', loops[0])
-    ctx.require((post.direction, post.end) in (('backward', 'front'),), f'{qn}: post is walked backward and rebuilt from the front (last occurrence wins)', mod, qn,
-                'polarity of the post walk', f'post is walked {post.direction} and kept elements are put at the {post.end} of {post.out}: '
-                f'{"the first instead of the last occurrence of an overridden -D/-U survives" if post.direction == "forward" else "the appended arguments come out reversed"}', loops[0])
-    ctx.require((cont.direction, cont.end) == ('forward', 'back'), f'{qn}: the flushed part keeps its order', mod, qn, 'polarity of the container walk',
-                f'_container is walked {cont.direction} and kept at the {cont.end}: order of already flushed arguments changes', loops[0])
-    sets = frozenset(x for x in (pre.added, post.added) if x)
-    ctx.require(cont.tested == sets and len(sets) == 2, f'{qn}: container entries named in either override set {sorted(sets)} are dropped', mod, qn,
-                'override sets consulted by the container walk', f'the container walk consults {sorted(cont.tested)}, the override sets are {sorted(sets)}: '
-                'an overridden argument already flushed would survive next to its replacement', loops[0])
-    ctx.require(pre.tested == frozenset([pre.added]) and post.tested == frozenset([post.added]), f'{qn}: each queue de-duplicates against its own set',
-                mod, qn, 'override sets consulted by the queue walks', f'pre consults {sorted(pre.tested)} / fills {pre.added}; post consults {sorted(post.tested)} / fills {post.added}', loops[0])
-    # assembly: result = pre-kept + container-kept + post-kept
-    tail = [(i, s) for i, s in enumerate(slow) if isinstance(s, ast.Expr) and isinstance(s.value, ast.Call) and
-            norm(s.value) in (f'{pre.out}.extend({post.out})',)]
-    tail += [(i, s) for i, s in enumerate(slow) if isinstance(s, ast.AugAssign) and isinstance(s.op, ast.Add) and norm(s.target) == pre.out and
-             norm(s.value) in (post.out, f'list({post.out})')]
-    assign = [(i, s) for i, s in enumerate(slow) if isinstance(s, ast.Assign) and norm(s.targets[0]) == 'self._container']
-    order_ok = (pre.out == cont.out and post.out != pre.out and pos['pre'] < pos['_container'] and pos['post'] < pos['_container']
-                and len(tail) == 1 and tail[0][0] > pos['_container'] and len(assign) == 1 and assign[0][0] > pos['_container']
-                and norm(assign[0][1].value) == pre.out)  # type: ignore[attr-defined]
-    alt_sum = (len(assign) == 1 and not tail and norm(assign[0][1].value) in (f'{pre.out} + {post.out}', f'{pre.out} + list({post.out})',  # type: ignore[attr-defined]
-                                                                                 f'[*{pre.out}, *{post.out}]')
-               and pre.out == cont.out and post.out != pre.out and pos['pre'] < pos['_container'] and pos['post'] < pos['_container']
-               and assign[0][0] > pos['_container'])
-    order_ok = order_ok or alt_sum
-    if not order_ok:
-        skip = {id(lp) for lp in loops}
-        uses_post = any(post.out in {n.id for n in ast.walk(s_) if isinstance(n, ast.Name) and isinstance(n.ctx, ast.Load)}
-                        for s_ in slow if id(s_) not in skip)
-        if len(tail) == 1 and tail[0][0] < pos['_container'] and pre.out == cont.out:
-            why = f'the kept appended arguments ({post.out}) are added to {pre.out} before the surviving container entries'
-        elif not uses_post:
-            why = f'the kept appended arguments ({post.out}) are built but never read again: everything queued in self.post is lost'
-        elif pre.out == cont.out and pos['pre'] > pos['_container']:
-            why = 'the kept prepended arguments are added after the surviving container entries'
-        else:
-            raise Undecided(f'{qn}: assembly of the merged list is not in a known form')
-        ctx.violation(mod, qn, 'assembly order', f'assembly order is wrong: {why}; the merged list must be pre + surviving container entries + post', fn)
-    else:
-        ctx.ok(f'{qn}: result is [pre kept] + [container kept] + [post kept] (built in {pre.out}, tail {post.out})')
-    # containers start empty
-    inits: T.Dict[str, str] = {}
-    for s in slow:
-        if isinstance(s, (ast.Assign, ast.AnnAssign)) and s.value is not None:
-            t = s.targets[0] if isinstance(s, ast.Assign) else s.target
-            if isinstance(t, ast.Name):
-                inits[t.id] = norm(s.value)
-    need = {pre.out: ('[]', 'list()'), post.out: ('collections.deque()', 'deque()', '[]', 'list()'), pre.added: ('set()',), post.added: ('set()',)}
-    init_nodes: T.Dict[str, ast.AST] = {}
-    for s_ in slow:
-        if isinstance(s_, (ast.Assign, ast.AnnAssign)) and s_.value is not None:
-            t_ = s_.targets[0] if isinstance(s_, ast.Assign) else s_.target
-            if isinstance(t_, ast.Name):
-                init_nodes.setdefault(t_.id, s_.value)
-    for name, forms in need.items():
-        got_i = inits.get(name or '')
-        if got_i in forms:
-            ctx.ok(f'{qn}: {name} starts empty')
-            continue
-        v_ = init_nodes.get(name or '')
-        nonempty = isinstance(v_, (ast.List, ast.Tuple, ast.Set, ast.Dict)) and bool(getattr(v_, 'elts', None) or getattr(v_, 'keys', None))
-        aliased = v_ is not None and attr_chain(v_) is not None
-        if nonempty or aliased:
-            ctx.violation(mod, qn, f'initial value of {name}', f'{name} starts as {got_i}: '
-                          f'{"it shares the list it is rebuilt from" if aliased else "it is not empty"}, the merged list gets extra / duplicated entries', fn)
-        else:
-            raise Undecided(f'{qn}: {name} is initialised as {got_i!r}, not a recognised empty container')
+    if not _slow_path(ctx, mod, qn, fn, slow):
+        return
 
     _iadd(ctx, mod)
 
@@ -889,3 +935,105 @@ def _iadd(ctx: RuleCtx, mod: Module) -> None:
         if not ok and (len(moves) != 1 or not re.fullmatch(r'self\.pre\.(extend|extendleft)\((reversed\()?%s\)?\)' % re.escape(name), moves[0])):
             raise Undecided(f'{qn}: the batch is moved by {moves}')
     ctx.require(ok, f'{qn}: a batch is prepended in its own order ({form} then {moves})', mod, qn, 'batch prepend', msg, lp)
+
+
+# ---------------------------------------------------------------------------------------------
+# R4: extend_preserving_lflags — which arguments bypass de-duplication
+# ---------------------------------------------------------------------------------------------
+# Reference (arglist.py, comment above always_dedup_args: "In generate_link() we add external libs without de-dup, but we
+# must *always* de-dup these because they're special arguments to the linker"; property C13: a repeat of a once-only
+# argument is dropped): an argument takes the direct (no de-dup) route iff it is a -l/-L argument and is not one of the
+# always-de-duplicated compiler-internal libraries; everything else takes the de-duplicating route; nothing is lost.
+ALWAYS_DEDUP_MIN = frozenset({'-lm', '-lc', '-lpthread', '-ldl', '-lrt'})
+
+
+def r4(ctx: RuleCtx) -> None:
+    mod = ctx.repo.module(ARGLIST)
+    qn = f'{ROOT}.extend_preserving_lflags'
+    fn = _inline(mod, ROOT, mod.func(qn))
+    params = [a.arg for a in fn.args.args if a.arg != 'self']
+    loops = [s_ for s_ in fn.body if isinstance(s_, ast.For)]
+    if len(loops) != 1 or not isinstance(loops[0].target, ast.Name) or norm(loops[0].iter) not in params:
+        raise Undecided(f'{qn}: expected one loop over the added arguments')
+    lp = loops[0]
+    x = lp.target.id
+    # the two routes: lists handed to self.extend_direct(...) / self.extend(...) after the loop
+    routes: T.Dict[str, str] = {}
+    for s_ in fn.body:
+        if s_ is lp or (isinstance(s_, ast.Expr) and isinstance(s_.value, ast.Constant)):
+            continue
+        if isinstance(s_, (ast.Assign, ast.AnnAssign)) and s_.value is not None and norm(s_.value) in ('[]', 'list()'):
+            continue
+        if isinstance(s_, ast.Expr) and isinstance(s_.value, ast.Call) and attr_chain(s_.value.func) in ('self.extend', 'self.extend_direct') \
+                and len(s_.value.args) == 1 and isinstance(s_.value.args[0], ast.Name) and not s_.value.keywords and fn.body.index(s_) > fn.body.index(lp):
+            routes[s_.value.args[0].id] = 'direct' if s_.value.func.attr == 'extend_direct' else 'dedup'  # type: ignore[attr-defined]
+            continue
+        if isinstance(s_, ast.AugAssign) and attr_chain(s_.target) == 'self' and isinstance(s_.value, ast.Name) and fn.body.index(s_) > fn.body.index(lp):
+            routes[s_.value.id] = 'dedup'
+            continue
+        raise Undecided(f'{qn}: statement `{short(s_, 60)}` is outside the reference vocabulary')
+    if sorted(routes.values()) != ['dedup', 'direct']:
+        raise Undecided(f'{qn}: routes after the loop are {routes}')
+    tab = tables.extract(fn, body=lp.body, effects=_eff, inline=True, name=qn + ':loop')
+    exempt: T.List[Atom] = []
+    pref: T.Dict[Atom, T.FrozenSet[str]] = {}
+    for a in tab.atoms():
+        if a.kind == 'in' and a.args[0] == x and _table_of(ast.parse(a.args[1], mode='eval').body):
+            exempt.append(a)
+            continue
+        if a.kind == 'truth':
+            e = ast.parse(a.args[0], mode='eval').body
+            if isinstance(e, ast.Call) and isinstance(e.func, ast.Attribute) and e.func.attr == 'startswith' and norm(e.func.value) == x and len(e.args) == 1:
+                v = e.args[0]
+                tn = _table_of(v)
+                if tn is not None:       # prefixes hoisted into a class constant: fold it
+                    fv = _fold_table(ctx, ARGLIST, ROOT, tn)
+                    if not isinstance(fv, Regex):
+                        pref[a] = frozenset(fv)
+                        continue
+                consts = v.elts if isinstance(v, ast.Tuple) else [v]
+                if all(isinstance(c, ast.Constant) and isinstance(c.value, str) for c in consts):
+                    pref[a] = frozenset(c.value for c in consts)  # type: ignore[attr-defined]
+                    continue
+        raise Undecided(f'{qn}: loop tests {a!r}, outside the reference vocabulary')
+    if len(exempt) != 1 or not pref:
+        raise Undecided(f'{qn}: expected one table test and the -l/-L prefix tests, found {exempt} / {list(pref)}')
+    table = _table_of(ast.parse(exempt[0].args[1], mode='eval').body)
+    tested = frozenset().union(*pref.values())
+    ctx.require(tested == {'-l', '-L'}, f'{qn}: the direct route is reserved for -l/-L arguments', mod, qn, 'prefixes of the direct route',
+                f'the prefixes that select the direct (no de-dup) route are {sorted(tested)}, the contract says -l and -L', lp)
+    ctx.require(table == 'always_dedup_args', f'{qn}: the exemption from the direct route is the always_dedup_args table', mod, qn, exempt[0].args[1],
+                f'the libraries kept on the de-duplicating route are looked up in {table}; the table of compiler-internal libraries that must always be '
+                f'de-duplicated is always_dedup_args (a repeated -lm/-lpthread would be passed through)', lp)
+    import itertools
+    bad = 0
+    n = 0
+    atoms = list(pref) + exempt
+    for bits in itertools.product((False, True), repeat=len(atoms)):
+        w = dict(zip(atoms, bits))
+        # prefix tests on the same constants agree; a tuple test is the disjunction of its members
+        single = {next(iter(p)): w[a] for a, p in pref.items() if len(p) == 1}
+        if any(len(p) > 1 and all(c in single for c in p) and w[a] != any(single[c] for c in p) for a, p in pref.items()):
+            continue
+        rows = tab.fire(w)
+        if len(rows) != 1:
+            raise Undecided(f'{qn}: {len(rows)} rows fire in one world')
+        n += 1
+        is_l = any(w[a] for a in pref)
+        want = 'direct' if (is_l and not w[exempt[0]]) else 'dedup'
+        got: T.List[str] = []
+        for e in rows[0].effects:
+            m = re.fullmatch(r'call (\w+)\.append\(%s\)' % re.escape(x), e)
+            if m and m.group(1) in routes:
+                got.append(routes[m.group(1)])
+            else:
+                raise Undecided(f'{qn}: loop effect `{e}` is outside the reference vocabulary')
+        if got != [want]:
+            bad += 1
+            ctx.violation(mod, qn, repr(rows[0]), f'an argument that {"is" if is_l else "is not"} a -l/-L argument and {"is" if w[exempt[0]] else "is not"} in {table} '
+                          f'takes the route(s) {got or "none"}; the contract requires exactly the {want} route', rows[0].path.events[-1].node if rows[0].path.events else lp)
+    if not bad:
+        ctx.ok(f'{qn}: routing table agrees with the reference on {n} worlds (-l/-L outside {table} -> extend_direct, everything else -> extend)')
+    vals = _fold_table(ctx, ARGLIST, ROOT, 'always_dedup_args')
+    ctx.require(ALWAYS_DEDUP_MIN <= frozenset(vals), 'always_dedup_args contains the compiler-internal libraries', mod, ROOT, 'table always_dedup_args',
+                f'always_dedup_args folds to {sorted(vals)} and lacks {sorted(ALWAYS_DEDUP_MIN - frozenset(vals))}', mod.cls(ROOT))
